@@ -109,4 +109,140 @@ func TestC03(t *testing.T) {
 		}
 	}
 	report(t, r)
+	testC03Having(t)
+	testC03MixedKeys(t)
+}
+
+// HAVING sees the finished group row: a condition on a grouping column, alone or with an aggregate, keeps exactly the
+// groups whose key satisfies it.
+func testC03Having(t *testing.T) {
+	r := &result{Property: "C03", Name: "having-sees-the-grouping-columns", Bound: "5 tables x 6 HAVING conditions on the grouping column (=, <>, IS NULL, IS NOT NULL, with an aggregate, inside a function call)"}
+	tables := [][]any{
+		{},
+		{map[string]any{"g": "n", "v": 1.0}},
+		{map[string]any{"g": "n", "v": 1.0}, map[string]any{"g": "s", "v": 2.0}, map[string]any{"g": "n", "v": 3.0}},
+		{map[string]any{"g": nil, "v": 1.0}, map[string]any{"g": "s", "v": 2.0}, map[string]any{"g": nil, "v": 3.0}, map[string]any{"g": "e", "v": 5.0}},
+		{map[string]any{"g": "s", "v": 1.0}, map[string]any{"g": "s", "v": 2.0}, map[string]any{"g": "e", "v": 9.0}, map[string]any{"v": 4.0}},
+	}
+	conds := []struct {
+		sql  string
+		keep func(g any, sum float64) bool
+	}{
+		{"g = 's'", func(g any, _ float64) bool { return g == "s" }},
+		{"g <> 's'", func(g any, _ float64) bool { return g != "s" }},
+		{"g IS NULL", func(g any, _ float64) bool { return g == nil }},
+		{"g IS NOT NULL", func(g any, _ float64) bool { return g != nil }},
+		{"g <> 'n' AND SUM(v) > 2", func(g any, sum float64) bool { return g != "n" && sum > 2 }},
+		{"CONCAT(g, '!') = 's!'", func(g any, _ float64) bool { return g == "s" }},
+	}
+	for ti, tbl := range tables {
+		for _, c := range conds {
+			r.Cases++
+			q, err := genql.New(map[string]any{"t": tbl}, "SELECT g, SUM(v) AS s FROM t GROUP BY g HAVING "+c.sql)
+			if err != nil {
+				r.violate("New(%s): %v", c.sql, err)
+				continue
+			}
+			rs, err := q.Exec()
+			if err != nil {
+				r.violate("table %d HAVING %s: %v", ti, c.sql, err)
+				continue
+			}
+			var order []any
+			sums := map[any]float64{}
+			for _, x := range tbl {
+				g := x.(map[string]any)["g"]
+				if _, seen := sums[g]; !seen {
+					order = append(order, g)
+				}
+				sums[g] += x.(map[string]any)["v"].(float64)
+			}
+			var want []string
+			for _, g := range order {
+				if c.keep(g, sums[g]) {
+					want = append(want, fmt.Sprintf("%v=%v", g, sums[g]))
+				}
+			}
+			var got []string
+			for _, o := range rs {
+				m := o.(map[string]any)
+				got = append(got, fmt.Sprintf("%v=%v", m["g"], m["s"]))
+			}
+			if fmt.Sprint(got) != fmt.Sprint(want) {
+				r.violate("table %d HAVING %s: groups %v, reference %v", ti, c.sql, got, want)
+			}
+		}
+	}
+	report(t, r)
+}
+
+// Grouping keys of mixed Go numeric types (a document need not come from JSON): every row lands in exactly one group, rows
+// whose keys are the same value of the same type share a group, and the partition is the same on every run.
+func testC03MixedKeys(t *testing.T) {
+	mixedKeysPartition(t, "C03")
+}
+
+func mixedKeysPartition(t *testing.T, prop string) {
+	big := int64(1) << 53
+	vals := []any{big + 1, big, float64(big), int64(1), 1.0, float32(0.5), 0.5, uint8(1)}
+	r := &result{Property: prop, Name: "mixed-numeric-keys-partition-the-same-way-on-every-run", Bound: fmt.Sprintf("all ordered triples over %d numeric key values of six Go types (2^53 boundary included), 12 runs each", len(vals))}
+	for _, a := range vals {
+		for _, b := range vals {
+			for _, c := range vals {
+				r.Cases++
+				keys := []any{a, b, c}
+				first := ""
+				for run := 0; run < 12; run++ {
+					rows := make([]any, len(keys))
+					for i, k := range keys {
+						rows[i] = map[string]any{"id": float64(i), "k": k}
+					}
+					q, err := genql.New(map[string]any{"t": rows}, "SELECT k, COUNT(id) AS n FROM t GROUP BY k")
+					if err != nil {
+						r.violate("New: %v", err)
+						break
+					}
+					rs, err := q.Exec()
+					if err != nil {
+						r.violate("keys %#v: %v", keys, err)
+						break
+					}
+					total := 0.0
+					shape := ""
+					for _, o := range rs {
+						g := o.(map[string]any)
+						n := 0.0
+						fmt.Sscan(fmt.Sprint(g["n"]), &n)
+						total += n
+						shape += fmt.Sprintf("%#v:%v ", g["k"], g["n"])
+					}
+					if int(total) != len(keys) {
+						r.violate("keys %#v: the group counts add up to %v, not %d (%s)", keys, total, len(keys), shape)
+						break
+					}
+					// identical keys (same type, same value) share a group: no two groups carry the same key
+					seen := map[any]bool{}
+					dup := false
+					for _, o := range rs {
+						k := o.(map[string]any)["k"]
+						if seen[k] {
+							dup = true
+						}
+						seen[k] = true
+					}
+					if dup {
+						r.violate("keys %#v: two groups carry one key (%s)", keys, shape)
+						break
+					}
+					if run == 0 {
+						first = shape
+					} else if shape != first {
+						r.violate("keys %#v: run %d groups as %s, the first run as %s", keys, run, shape, first)
+						break
+					}
+				}
+			}
+		}
+	}
+	report(t, r)
 }
